@@ -572,8 +572,8 @@ fn check_vm(obs: &mut Obs, prefix: &str, src: &str) -> bool {
             // outside what the generator means to produce; only reachable through ^^xy
             // spelling one of the reserved names
             let (_, st) = model::lex_all(src, &|c| initial.get(c), Some('\r'), Quirks::default());
-            if st.hex_reductions > 0 {
-                obs.skip("vm-text-spells-a-reserved-command-through-hex-notation");
+            if st.hex_reductions + st.reductions_in_name + st.reductions_main > 0 {
+                obs.skip("vm-text-spells-a-reserved-command-through-caret-notation");
             } else {
                 obs.inconclusive(format!("vm program not interpretable by the harness: {why}"));
             }
@@ -745,7 +745,7 @@ impl Monitor for M {
     fn floors(&self, tier: Tier) -> Vec<(&'static str, u64)> {
         // floors are roughly a third of what seed 0 observes
         let r = |q: u64, t: u64| tier.pick(q, t);
-        vec![
+        let mut v = vec![
             ("known:cases", 24),
             ("known-vm:cases", 12),
             ("exh:cases", r(588_240, 28_824_000)),
@@ -793,7 +793,17 @@ impl Monitor for M {
             ("vm:traces_of_caret_reduced_tokens", r(11_000, 280_000)),
             ("vm:caret_reductions_in_cs_name", r(12_000, 300_000)),
             ("vm:invalid_character_errors_matched", r(700, 18_000)),
-        ]
+        ];
+        // the Miri stage (stages/C03.sh) is run by ./check, which then sets VERIF_STAGE_DIR
+        if std::env::var("VERIF_STAGE_DIR").map(|d| !d.is_empty()).unwrap_or(false) {
+            v.push(("miri-stacked:strings", r(320, 3200)));
+            v.push(("miri-tree:strings", r(320, 3200)));
+            v.push(("miri-stacked:caret_pairs_in_sources", r(600, 6000)));
+            v.push(("miri-tree:caret_pairs_in_sources", r(600, 6000)));
+            v.push(("miri-stacked:utf8_validity_checks", r(1200, 12000)));
+            v.push(("miri-tree:utf8_validity_checks", r(1200, 12000)));
+        }
+        v
     }
 
     fn calibrate(&self, obs: &mut Obs) {
